@@ -324,6 +324,49 @@ fn race_round(seed: u64, round: u64, tools: &Tools, rep: &mut Report) {
             }
         }
     }
+    // the same directory under other spellings (a symbolic link on the way, a `..` component):
+    // while one handle lives every spelling is refused, after it is dropped every spelling opens
+    if findings.is_empty() {
+        let link = base.join("link");
+        let _ = std::os::unix::fs::symlink(&base, &link);
+        let _ = std::fs::create_dir_all(base.join("sub"));
+        let spellings = [root.clone(), link.join("db"), base.join("sub").join("..").join("db")];
+        let cfg = || config(n_ops, true, false, true, false);
+        let first = spellings[(round % 3) as usize].clone();
+        match Cas::<Vec<u8>>::open(&first, cfg()) {
+            Ok(owner) => {
+                for s in &spellings {
+                    if !matches!(Cas::<Vec<u8>>::open(s, cfg()), Err(LibError::AlreadyOpened)) {
+                        findings.push(Finding::new(
+                            &["C11"],
+                            "a second open under another spelling of the path did not fail with the already-opened error",
+                            "path spellings",
+                            format!("owner opened {}, second open of {}", first.display(), s.display()),
+                        ));
+                    }
+                }
+                drop(owner);
+                for s in &spellings {
+                    match Cas::<Vec<u8>>::open(s, cfg()) {
+                        Ok(h) => drop(h),
+                        Err(e) => findings.push(Finding::new(
+                            &["C11"],
+                            "open failed after the owner was dropped",
+                            "path spellings",
+                            format!("owner had opened {}, reopen of {}: {}", first.display(), s.display(), err_chain(&e)),
+                        )),
+                    }
+                }
+                rep.count("path_spelling_rounds", 1);
+            }
+            Err(e) => findings.push(Finding::new(
+                &["C11"],
+                "open failed after every owner was dropped",
+                "path spellings",
+                format!("{}: {}", first.display(), err_chain(&e)),
+            )),
+        }
+    }
     rep.evaluations += 1;
     rep.distinct_case(format!("{desc}|{round}").as_bytes());
     if rep.samples.len() < 4 {
